@@ -6,6 +6,7 @@ import (
 	"encoding/json"
 	"fmt"
 	"io"
+	"math"
 	"strings"
 	"testing/iotest"
 
@@ -142,7 +143,7 @@ func clip(b []byte) string {
 }
 
 func run(c *enum.Ctx) {
-	c.Rule("record set R = 36 name x description combinations (names \"\", a, >, @x, +, a>b@+; descriptions \"\", d, 'two words', >, @, +x) x letters from every string of length 0..3 (thorough 4) over {a,c,N,-} (protein {a,w,*}); all lists of <=2 (thorough 3, reduced) records; boundary lengths 4095..12289 with position dependent fill; FASTA widths {1,2,3,7,60,4096,4097,10000} x Seq/QSeq x DNA/protein; FASTQ x QID on/off x 5 Phred-offset encodings x quality vectors over {lowest, '@'-producing, '+'-producing, highest}; reader fed whole, one byte at a time, and with data+EOF together; every file is read alternately with a companion reader of another configuration (FASTA: a 5000-letter line and width-3 wrapping; FASTQ: a Solexa-encoded file), which must read its own records; non-trivial = lists with >= 1 record")
+	c.Rule("record set R = 36 name x description combinations (names \"\", a, >, @x, +, a>b@+; descriptions \"\", d, 'two words', >, @, +x) x letters from every string of length 0..3 (thorough 4) over {a,c,N,-} (protein {a,w,*}); all lists of <=2 (thorough 3, reduced) records; boundary lengths 4095..12289 with position dependent fill; FASTA widths {1,2,3,7,60,4096,4097,10000, 2^31-1, 2^31, 2^32+1, MaxInt64-1, MaxInt64} x Seq/QSeq x DNA/protein; FASTQ x QID on/off x 5 Phred-offset encodings x quality vectors over {lowest, '@'-producing, '+'-producing, highest}; reader fed whole, one byte at a time, and with data+EOF together; every file is read alternately with a companion reader of another configuration (FASTA: a 5000-letter line and width-3 wrapping; FASTQ: a Solexa-encoded file), which must read its own records; non-trivial = lists with >= 1 record")
 	c.Assume("names without whitespace, single-line trimmed descriptions, sequences at offset 0", "Illumina1_5 scores start at 2 (its printable range)", "FASTA does not carry qualities; FASTQ with a plain template carries letters only")
 	maxL := 3
 	if !c.Quick {
@@ -157,7 +158,8 @@ func run(c *enum.Ctx) {
 	var dnaWords, protWords []string
 	enum.Strings("acN-", 0, maxL, func(s []byte) { dnaWords = append(dnaWords, string(s)) })
 	enum.Strings("aw*", 0, maxL, func(s []byte) { protWords = append(protWords, string(s)) })
-	widths := []int{1, 2, 3, 7, 60, 4096, 4097, 10000}
+	// ("any positive line width": the largest int and its neighbourhood, 2^31 and 2^32 and theirs)
+	widths := []int{1, 2, 3, 7, 60, 4096, 4097, 10000, 1<<31 - 1, 1 << 31, 1<<32 + 1, math.MaxInt64 - 1, math.MaxInt64}
 	var cases []kase
 	// FASTA
 	for _, prot := range []bool{false, true} {
